@@ -76,7 +76,7 @@ func (wtr *XMLWtr) container(lvl int) node.Node {
 			return nil, nil
 		}
 		if !meta.IsList(r.Meta) {
-			if err = wtr.beginContainer(wtr.ident(r.Path)); err != nil {
+			if err = wtr.beginContainer(wtr.ident(r.Path) + wtr.xmlnsIfChanged(r.Path)); err != nil {
 				return nil, err
 			}
 		}
@@ -115,11 +115,16 @@ func (wtr *XMLWtr) container(lvl int) node.Node {
 		ns := ""
 
 		if l, listable := hnd.Val.(val.Listable); listable {
+			if wtr.xmlnsIfChanged(r.Path) != "" {
+				ns = wtr.getXmlns(r.Path)
+			}
 			for i := 0; i < l.Len(); i++ {
 				wtr.writeLeafElement(ns, r.Path, l.Item(i))
 			}
 		} else {
 			if lvl == 0 && first {
+				ns = wtr.getXmlns(r.Path)
+			} else if wtr.xmlnsIfChanged(r.Path) != "" {
 				ns = wtr.getXmlns(r.Path)
 			}
 			wtr.writeLeafElement(ns, r.Path, hnd.Val)
@@ -133,7 +138,10 @@ func (wtr *XMLWtr) container(lvl int) node.Node {
 		}
 
 		ident := wtr.ident(r.Selection.Path)
-
+		if lvl > 0 {
+			// at level 0 the list itself is the root element and carries the namespace
+			ident += wtr.xmlnsIfChanged(r.Selection.Path)
+		}
 		if err = wtr.beginContainer(ident); err != nil {
 			return
 		}
@@ -145,6 +153,18 @@ func (wtr *XMLWtr) container(lvl int) node.Node {
 func (wtr *XMLWtr) ident(p *node.Path) string {
 	s := p.Meta.(meta.Identifiable).Ident()
 	return s
+}
+
+// xmlnsIfChanged is the namespace declaration an element needs when it is defined by
+// another module than its parent, otherwise empty.
+func (wtr *XMLWtr) xmlnsIfChanged(p *node.Path) string {
+	if p.Parent == nil || p.Parent.Meta == nil {
+		return ""
+	}
+	if meta.OriginalModule(p.Meta) == meta.OriginalModule(p.Parent.Meta) {
+		return ""
+	}
+	return " xmlns=" + "\"" + wtr.getXmlns(p) + "\""
 }
 
 func (wtr *XMLWtr) getXmlns(p *node.Path) string {
